@@ -46,3 +46,30 @@ Proof.
   intros rs Hin. apply rules_sound_compose. apply Forall_forall. intros r Hr.
   exact (proj1 (Forall_forall _ _) covered_rules_sound r (Hin r Hr)).
 Qed.
+
+(** the same without compute_expression (whose constant folding rests on the validity lemmas
+    of the float library and, through them, on the classical axioms of the real numbers) *)
+Definition covered_rules_nofold : list (block -> block) :=
+  [ rule_remove_function_call_parens; rule_remove_empty_do; rule_filter_after_early_return;
+    rule_remove_method_definition; rule_convert_index_to_field_const; rule_remove_unused_while_const;
+    rule_remove_unused_if_branch_const ].
+
+Lemma covered_rules_nofold_sound : Forall rule_sound covered_rules_nofold.
+Proof.
+  unfold covered_rules_nofold. repeat constructor; intros d.
+  - apply lifting_remove_function_call_parens.
+  - apply lifting_remove_empty_do.
+  - apply lifting_filter_after_early_return.
+  - apply lifting_remove_method_definition.
+  - apply lifting_convert_index_to_field_const.
+  - apply lifting_remove_unused_while_const.
+  - apply lifting_remove_unused_if_branch_const.
+Qed.
+
+Theorem lifting_covered_rules_nofold : forall rs, (forall r, In r rs -> In r covered_rules_nofold) ->
+  forall d n orc b out, run_chunk d n orc b = out -> out <> OutFuel ->
+  run_chunk d n orc (apply_rules rs b) = out.
+Proof.
+  intros rs Hin. apply rules_sound_compose. apply Forall_forall. intros r Hr.
+  exact (proj1 (Forall_forall _ _) covered_rules_nofold_sound r (Hin r Hr)).
+Qed.
